@@ -237,6 +237,30 @@ def kani_run(harnesses, timeout=1800):
     summary = dict(ok=int(m.group(1)), failed=int(m.group(2)), total=int(m.group(3))) if m else None
     return dict(cmd=cmd, wall_s=round(wall, 1), rc=rc, per_harness=res, summary=summary, failed_checks=failed[:10], tail=(out + err)[-1500:] if not m else '')
 
+def self_test(pid):
+    """thorough tier: apply every seeded change kept for this property to a scratch copy of the repository and confirm that this very
+    check raises a VIOLATION on it (guards against a check that cannot fail)"""
+    import glob, tempfile
+    out = {}
+    if os.environ.get('VERIF_NO_SELFTEST'): return out
+    for sd in sorted(glob.glob(os.path.join(ROOT, 'seeded', pid + '-*'))):
+        name = os.path.basename(sd)
+        w = tempfile.mkdtemp(prefix='verif-selftest-')
+        try:
+            sh('cp -r %s/src %s/Cargo.toml %s/Cargo.lock %s/README.md %s/benches %s/' % (REPO, REPO, REPO, REPO, REPO, w))
+            rc, o, e, _ = sh('cd %s && git init -q . && git apply %s/patch.diff' % (w, sd))
+            if rc != 0: out[name] = 'patch does not apply to this tree'; continue
+            for x in ('gen', 'ev', 'replay'): os.makedirs(os.path.join(w, x))
+            shutil.copytree(os.path.join(ROOT, 'probe'), os.path.join(w, 'probe'), ignore=shutil.ignore_patterns('target'))
+            shutil.copytree(os.path.join(ROOT, 'kani'), os.path.join(w, 'kani'), ignore=shutil.ignore_patterns('target'))
+            env = dict(os.environ, VERIF_REPO=w, VERIF_GEN=os.path.join(w, 'gen'), VERIF_EVIDENCE_DIR=os.path.join(w, 'ev'), VERIF_REPLAY_DIR=os.path.join(w, 'replay'),
+                       VERIF_PROBE_TARGET=os.path.join(w, 'pt'), VERIF_PROBE_DIR=os.path.join(w, 'probe'), VERIF_KANI_DIR=os.path.join(w, 'kani'), VERIF_TIER='quick', VERIF_NO_SELFTEST='1')
+            rc, o, e, wall = sh('python3 %s %s' % (os.path.join(VF, 'driver.py'), pid), timeout=1800, env=env)
+            out[name] = dict(detected=(rc == 1), rc=rc, wall_s=round(wall, 1), with_failing_input=('FAILING-INPUT' in o))
+        finally:
+            shutil.rmtree(w, ignore_errors=True)
+    return out
+
 def is_rlimit(e):
     return 'rlimit' in e['msg'].lower() or 'resource limit' in e['msg'].lower()
 
@@ -414,6 +438,7 @@ def main():
                          [dict(module='kani', fn='?', label='bit-exact', line=0, msg='CBMC found a counterexample', text='; '.join(kani['failed_checks']))])
     if kani and not kani.get('summary') and not violation:
         print('MACHINERY: the Kani harnesses did not run to completion (not a verdict):\n' + kani.get('tail', '')[-800:]); sys.exit(2)
+    st = self_test(pid) if (tier == 'thorough' and not violation) else None
     wall = time.time() - t0
     ev = dict(property_id=pid, tier=tier, seed=seed, level='proof', wall_s=round(wall, 2), violations=1 if violation else 0,
               coverage=dict(
@@ -431,7 +456,10 @@ def main():
                   prerequisite_failures=[dict(module=f['module'], fn=f['fn'], label=f['label'], tags=f['tags']) for f in prereq],
                   undecided_resource_out=[dict(module=f['module'], fn=f['fn']) for f in undecided],
                   known_findings=[k['raw'][:300] for k in known],
-                  bounded=probe, kani_loop_free_bit_level_proofs=kani,
+                  bounded=probe, kani_loop_free_bit_level_proofs=kani, seeded_self_test=st,
+                  extraction=dict(functions=len(rep['functions']), verbatim=len([f for f in rep['functions'] if not f['rules']]),
+                                  rewritten={'%s::%s' % (f['module'], f['fn']): f['rules'] for f in rep['functions'] if f['rules']}),
+                  slowest_functions=sorted([(v['ms'], k) for k, v in fnres.items()], reverse=True)[:8],
                   samples=[dict(obligation='%s::%s [%s]' % (o['module'], o['fn'], o['label']), clause=o['text'][:300]) for o in obl[:6]]
                           + [dict(lemma=k) for k in lemma_fns[:4]]),
               assumptions=ASSUMPTIONS)
